@@ -250,6 +250,7 @@ type ran struct {
 	multi bool
 	o     Outcome
 	mkey  string   // model request
+	bkey  string   // buffer-level model request (parsers only): one parseBuffer call per read, fast paths explicit
 	hist  []string // reused/pooled instances: the inputs (hex) the instance saw before this one
 	fresh *Outcome // reused/pooled instances: the outcome of a fresh instance on the same call
 }
@@ -266,6 +267,32 @@ func chunkStr(reads []int) string {
 		fmt.Fprint(&sb, n)
 	}
 	return sb.String()
+}
+
+const bufModelMax = 4300
+
+// bufKey is the request for the buffer-level model (Json/BufModel.lean, op `runbuf`) of a parser
+// variant: the same arguments as the byte-level `run`, the chunk lengths being the actual read sizes.
+func bufKey(v *Variant, mode, reads string, n, idx int) string {
+	// by Json.runB_eq_run the answer equals the byte-level model's, so short inputs are sampled (one in
+	// three; every input of 24 bytes or more and every corpus input is asked), multi mode one in six
+	if n < 24 && idx%3 != 0 && idx > 2000 {
+		return ""
+	}
+	if mode == "multi" && idx%6 != 0 {
+		return ""
+	}
+	// (the list-indexing model costs ~70 ms on a 4 KB buffer) long inputs: single mode, and only the runs
+	// whose reads are the reader's own 4096-byte refills or the whole input
+	if n > 512 && (mode == "multi" || (reads != "-" && !strings.HasPrefix(reads, "4096") && strings.Contains(reads, ","))) {
+		return ""
+	}
+	// the buffer-level model indexes a list (`buf[off]?`, `buf.drop (off+1)`): quadratic in the buffer
+	// length, so it is asked for inputs up to bufModelMax bytes (the 4096-straddling families included)
+	if !strings.Contains(v.Opts(), "f") || n > bufModelMax {
+		return ""
+	}
+	return "runbuf\t" + v.Table + "\t" + mode + "\t" + v.Opts() + "\t" + reads
 }
 
 func runAll(in []byte, idx int) []ran {
@@ -285,11 +312,11 @@ func runAll(in []byte, idx int) []ran {
 				for _, ch := range chunkings {
 					var reads []int
 					o := v.Run(in, ch, multi, &reads)
-					runs = append(runs, ran{v: v, ch: ch, reads: reads, multi: multi, o: o, mkey: "run\t" + v.Table + "\t" + mode + "\t" + v.Opts() + "\t" + chunkStr(reads)})
+					runs = append(runs, ran{v: v, ch: ch, reads: reads, multi: multi, o: o, mkey: "run\t" + v.Table + "\t" + mode + "\t" + v.Opts() + "\t" + chunkStr(reads), bkey: bufKey(v, mode, chunkStr(reads), len(in), idx)})
 				}
 			} else {
 				o := v.Run(in, nil, multi, nil)
-				runs = append(runs, ran{v: v, multi: multi, o: o, mkey: "run\t" + v.Table + "\t" + mode + "\t" + v.Opts() + "\t-"})
+				runs = append(runs, ran{v: v, multi: multi, o: o, mkey: "run\t" + v.Table + "\t" + mode + "\t" + v.Opts() + "\t-", bkey: bufKey(v, mode, "-", len(in), idx)})
 			}
 		}
 	}
@@ -447,6 +474,9 @@ func processBatch(d *lib.Driver, batch [][]byte) error {
 		add("run\tref\tsingle\t-\t-")
 		for _, r := range it.runs {
 			add(r.mkey)
+			if r.bkey != "" {
+				add(r.bkey)
+			}
 		}
 		items[i] = it
 	}
@@ -604,6 +634,24 @@ func judge(in []byte, idx int, runs []ran, model map[string]string) {
 		m := model[r.mkey]
 		mo := modelOutcome(m, r.v.Values, r.multi)
 		io := implOutcome(r.o, r.v.Values)
+		if r.bkey != "" && !split {
+			// the buffer-level model (fast paths explicit, one parseBuffer call per read): by
+			// Json.runB_eq_run it answers as the byte-level model; it is compared with the implementation too
+			bm := model[r.bkey]
+			rep.Count("bufmodel_runs", 1)
+			if bm != m {
+				desc["model"] = m
+				desc["bufmodel"] = bm
+				finding("disagreement", "C01", "bufmodel-vs-bytemodel:"+r.v.Name, "buffer-level and byte-level model differ (contradicts Json.runB_eq_run: driver or model build broken)", in, desc)
+				delete(desc, "bufmodel")
+			}
+			bo := modelOutcome(bm, r.v.Values, r.multi)
+			if bo != io && mo == io {
+				desc["bufmodel"] = bo
+				finding("disagreement", "C01", "bufmodel:"+r.v.Name, "buffer-level model and implementation differ", in, desc)
+				delete(desc, "bufmodel")
+			}
+		}
 		if !split {
 			desc["model"] = mo
 			accM, accI := strings.HasPrefix(mo, "ok"), strings.HasPrefix(io, "ok")
